@@ -416,6 +416,12 @@ def linear_optimum(seed, n):
         sc = 1e6 if far else 5.0
         truth = [np.array([rng.gauss(0, 3) for _ in range(d)]) for _ in range(nv)]
         verts = [Vertex(rng.choice([-1, 1]) * (k + 1) * 13, P([rng.gauss(0, sc) for _ in range(d)])) for k in range(nv)]
+        share = rng.random() < 0.3
+        if share:      # a legal initial guess: every vertex starts from ONE pose object / one float64 array
+            start = P([rng.gauss(0, sc) for _ in range(d)])
+            arr = np.array([rng.gauss(0, sc) for _ in range(d)], dtype=np.float64)
+            for k, v in enumerate(verts):
+                v.pose = start if k % 2 == 0 else P(arr)
         ids = [v.id for v in verts]
         nfix = rng.randint(1, max(1, nv // 3))
         fixed_pos = rng.sample(range(nv), nfix)
